@@ -1,6 +1,8 @@
 CONSTANTS
   Part = 0
   Parts = 1
+  MaxRewrites = 0
+  EmitRewrites = TRUE
 SPECIFICATION Spec
 CONSTRAINT Emit
 CHECK_DEADLOCK FALSE
